@@ -1,7 +1,7 @@
-(* C07 — impl_eq_ref: inside the guard the transcription of the Go code (M) and the reference (S) agree on
-   the outcome and on the whole final state (trace with ghost events, counters, locks, files), for every
-   program, every nesting depth, every initial state.  Induction on the evaluation (fuel) with one lemma
-   per body loop of the Go code. *)
+(* C07 — impl_eq_ref: inside the guard (lexically scoped programs) the transcription of the Go code (M) and
+   the reference (S) agree on the outcome and on the whole final state (trace with ghost events, counters,
+   locks, files), for every program, every nesting depth, every initial state.  Induction on the
+   evaluation (fuel) with one lemma per body loop of the Go code. *)
 From C07 Require Import Model Spec.
 
 Ltac inv H := inversion H; subst; clear H.
@@ -142,124 +142,20 @@ Proof.
     + destruct (nth_error defs i) as [body|]; [| inv H; exact I].
       match type of H with catch ?t ?r = _ => pose proof (catch_clean t r) as X; rewrite H in X; apply X end.
       destruct (s_seq (seval defs n [fn_tag i] []) body VNil st) eqn:E. eapply s_progn_clean; eauto.
-Qed.
-
-(* ---- mvfree: the value of such a form is never the two-valued object (M, every program) -------------- *)
-Definition mvsafe (ev : form -> state -> mres * state) : Prop :=
-  forall f st v st', mvfree f = true -> ev f st = (MVal v, st') -> v <> VNilVals.
-
-Lemma m_seq_mv : forall ev stop, mvsafe ev -> stop VNilVals = false -> forall fs last st v st',
-  last_ok mvfree fs = true -> (fs = [] -> last <> VNilVals) ->
-  m_seq ev stop fs last st = (MVal v, st') -> v <> VNilVals.
-Proof.
-  intros ev stop Hev Hs. induction fs as [|f r IH]; intros last st v st' L N H; cbn in H.
-  - inv H. auto.
-  - destruct (ev f st) as [o st1] eqn:E. destruct o; try discriminate.
-    destruct (stop v0) eqn:S0.
-    + inv H. intro. subst. congruence.
-    + eapply IH; [| | exact H].
-      * destruct r; [reflexivity | exact L].
-      * intro. subst. cbn in L. eapply Hev; eauto.
-Qed.
-
-Lemma m_progn_mv : forall ev stop, mvsafe ev -> stop VNilVals = false -> forall fs st v st',
-  last_ok mvfree fs = true -> m_seq ev stop fs VNil st = (MVal v, st') -> v <> VNilVals.
-Proof. intros. eapply m_seq_mv; eauto. intros _. discriminate. Qed.
-
-Lemma m_args_mv : forall ev fs acc st vs st',
-  Forall (fun v => v <> VNilVals) acc -> m_args ev fs acc st = (inr vs, st') -> Forall (fun v => v <> VNilVals) vs.
-Proof.
-  induction fs as [|f r IH]; intros acc st vs st' A H; cbn in H.
-  - inv H. apply Forall_rev. exact A.
-  - destruct (ev f st) as [o st1]. destruct o; try discriminate.
-    eapply IH; [| exact H]. constructor; [destruct v; cbn; discriminate | exact A].
-Qed.
-Lemma m_args_inl : forall ev fs acc st r st', m_args ev fs acc st = (inl r, st') -> forall v, r <> MVal v.
-Proof.
-  induction fs as [|f r IH]; intros acc st x st' H v; cbn in H.
-  - discriminate.
-  - destruct (ev f st) as [o st1]. destruct o; try solve [inv H; discriminate]. eapply IH; eauto.
-Qed.
-Lemma last_mv : forall vs, Forall (fun v => v <> VNilVals) vs -> last_val vs <> VNilVals.
-Proof.
-  unfold last_val. induction vs as [|v r IH]; intro A; cbn; [discriminate|].
-  inv A. destruct r; [assumption | apply IH; assumption].
-Qed.
-
-Lemma mk_list_mv : forall vs, mk_list vs <> VNilVals.
-Proof. destruct vs; discriminate. Qed.
-
-Lemma m_cond_mv : forall ev, mvsafe ev -> forall cs st v st',
-  clauses_ok mvfree cs = true -> m_cond ev cs st = (MVal v, st') -> v <> VNilVals.
-Proof.
-  intros ev Hev. induction cs as [|[c b] cs IH]; intros st v st' L H; cbn in H.
-  - inv H. discriminate.
-  - cbn in L. apply andb_true_iff in L. destruct L as [L1 L2]. apply andb_true_iff in L1. destruct L1 as [L1 L0].
-    destruct (ev c st) as [o st1] eqn:Ec. destruct o; try discriminate.
-    destruct (is_nil (prim v0)); [eapply IH; eauto|].
-    eapply (m_seq_mv ev never Hev eq_refl b (prim v0) st1 v st' L1); [|exact H].
-    intros _. destruct v0; discriminate.
-Qed.
-
-Lemma m_items_none : forall ev evt items skip st r st',
-  m_items ev evt onret_none skip items st = (Some r, st') -> forall v, r <> MVal v.
-Proof.
-  induction items as [|[t|f] items IH]; intros skip st r st' H v; cbn in H.
-  - discriminate.
-  - destruct skip as [t'|].
-    + destruct (N.eqb t t'); eapply IH; eauto.
-    + destruct (evt && sym_tag t); [inv H; discriminate | eapply IH; eauto].
-  - destruct skip as [t'|]; [eapply IH; eauto|].
-    destruct (ev f st) as [o st1]. destruct o; try solve [inv H; discriminate].
-    destruct v0; eapply IH; eauto.
-Qed.
-
-Theorem meval_mv : forall defs fuel sc tb, mvsafe (meval defs fuel sc tb).
-Proof.
-  intros defs. induction fuel as [|n IH]; intros sc tb f st v st' MV H.
-  - discriminate.
-  - destruct f; cbn in MV; try discriminate; cbn [meval] in H.
-    + inv H. destruct l; discriminate.
-    + inv H. discriminate.
-    + destruct (nth_error (vars st) x); inv H. discriminate.
-    + destruct (nth_error (vars st) x); inv H. destruct (z <? k)%Z; discriminate.
-    + inv H. discriminate.
-    + destruct (m_args (meval defs n sc tb) args [] st) as [[o|vs] st1] eqn:E; inv H.
-      * exfalso. eapply m_args_inl; eauto.
-      * apply mk_list_mv.
-    + eapply m_progn_mv; [apply IH | | exact MV | exact H]; reflexivity.
-    + destruct (meval defs n sc tb f st) as [o st1]. destruct o; try discriminate.
-      destruct (is_nil (prim v0)); [inv H; discriminate|].
-      eapply m_progn_mv; [apply IH | | exact MV | exact H]; reflexivity.
-    + eapply m_cond_mv; eauto.
-    + destruct (m_args (meval defs n sc tb) inits [] st) as [[o|vs] st1] eqn:E;
-        [inv H; exfalso; eapply m_args_inl; eauto|].
-      eapply m_progn_mv; [apply IH | | exact MV | exact H]; reflexivity.
-    + destruct (in_block sc t); [| discriminate].
-      destruct (meval defs n sc tb f st) as [o st1]. destruct o; inv H. discriminate.
-    + destruct (in_block sc 0%N); [| discriminate].
-      destruct (meval defs n sc tb f st) as [o st1]. destruct o; inv H. discriminate.
-    + destruct (m_items (meval defs n ((false, 0%N) :: sc) true) true onret_none None items st) as [[o|] st1] eqn:E; inv H.
-      * exfalso. eapply m_items_none; eauto.
-      * discriminate.
-    + destruct tb; inv H. discriminate.
-    + destruct (meval defs n sc tb f (log (EEnter u) st)) as [o st1] eqn:E.
-      destruct o; try discriminate;
-        destruct (m_seq (meval defs n sc tb) never cleanup VNil (log (ECleanup u) st1)) as [r2 st2];
-        destruct r2; inv H. eapply IH; eauto.
-    + destruct (N.testbit (locks st) m); [discriminate|].
-      destruct (m_seq (meval defs n sc tb) never body VNil (lock m st)) as [o st1] eqn:E.
-      destruct o; inv H. eapply m_progn_mv; [apply IH | | exact MV | exact E]; reflexivity.
-    + destruct (m_seq (meval defs n ((false, 0%N) :: sc) tb) never body VNil (fopen f st)) as [o st1] eqn:E.
-      destruct o; inv H. eapply m_progn_mv; [apply IH | | exact MV | exact E]; reflexivity.
+    + destruct (seval defs n bl tg f st) as [o1 st1] eqn:E. pose proof (IH _ _ _ _ _ _ E) as C.
+      destruct o1; try solve [inv H; exact C].
+      destruct (is_nil v); [eapply s_progn_clean; eauto | inv H; reflexivity].
+    + destruct (seval defs n bl tg f1 st) as [o1 st1] eqn:E. pose proof (IH _ _ _ _ _ _ E) as C.
+      destruct o1; try solve [inv H; exact C].
+      destruct (is_nil v); eapply IH; eauto.
 Qed.
 
 (* ---- the refinement relation ------------------------------------------------------------------------ *)
 Definition exits_ok (R G : list N) (o : outcome) : Prop :=
   match o with Ret t _ => memN t R = true | Goto t => memN t G = true | _ => True end.
 
-(* whenever S terminates on f with outcome o, M produces the corresponding value / panic, the same final
-   state, and o is an exit only to a block in R / a tag in G *)
+(* whenever S terminates on f with outcome o, M produces the corresponding value / marker / panic, the same
+   final state, and o is an exit only to a block in R / a tag in G *)
 Definition related (em : form -> state -> mres * state) (es : form -> state -> outcome * state)
            (R G : list N) (f : form) : Prop :=
   forall st o st', es f st = (o, st') -> o <> OOF ->
@@ -300,289 +196,255 @@ Lemma s_tagbody_eq : forall ev all k items st,
   | (SJump t, st1) => match k with O => (OOF, st1) | S k' => s_tagbody ev all k' (after_tag t all) st1 end
   end.
 Proof. intros. destruct k; reflexivity. Qed.
+Lemma m_tagbody_eq : forall ev onret all k items st,
+  m_tagbody ev onret all k items st =
+  match m_pass ev onret (tags_of all) items st with
+  | (MDone, st1) => (None, st1)
+  | (MOut r, st1) => (Some r, st1)
+  | (MJump t, st1) => match k with O => (Some MOOF, st1) | S k' => m_tagbody ev onret all k' (after_tag t all) st1 end
+  end.
+Proof. intros. destruct k; reflexivity. Qed.
 
-Lemma m_items_skip : forall ev evt onret t items st,
-  m_items ev evt onret (Some t) items st = m_items ev evt onret None (after_tag t items) st.
-Proof.
-  induction items as [|[t'|f] items IH]; intros; cbn; [reflexivity | | apply IH].
-  destruct (N.eqb t' t); [reflexivity | apply IH].
-Qed.
-
-Lemma after_tag_suffix : forall t items, exists pre, items = pre ++ after_tag t items.
-Proof.
-  induction items as [|[t'|f] items [pre IH]]; cbn.
-  - exists []. reflexivity.
-  - destruct (N.eqb t' t); [exists [ITag t']; reflexivity | exists (ITag t' :: pre); cbn; congruence].
-  - exists (IForm f :: pre). cbn. congruence.
-Qed.
-Lemma after_tag_length : forall t items, length (after_tag t items) <= length items.
-Proof.
-  induction items as [|[t'|f] items IH]; cbn; [lia | | lia].
-  destruct (N.eqb t' t); lia.
-Qed.
-Lemma g_items_after : forall pbi R t items, g_items gd pbi R items = true -> g_items gd pbi R (after_tag t items) = true.
+Lemma g_items_after : forall R G t items, g_items gd R G items = true -> g_items gd R G (after_tag t items) = true.
 Proof.
   induction items as [|[t'|f] items IH]; cbn; intro H; [reflexivity | |].
   - destruct (N.eqb t' t); auto.
   - apply andb_true_iff in H. destruct H as [_ H]. auto.
 Qed.
-(* with distinct tags, the first occurrence of a tag that occurs in the rest is in the rest *)
-Lemma after_tag_app : forall t pre r, memN t (tags_of pre) = false -> after_tag t (pre ++ r) = after_tag t r.
-Proof.
-  induction pre as [|[t'|f] pre IH]; intros r H; cbn in *; [reflexivity | | apply IH; exact H].
-  apply orb_false_iff in H. destruct H as [H1 H2]. rewrite N.eqb_sym in H1. rewrite H1. apply IH. exact H2.
-Qed.
-Lemma nodup_app_l : forall a b t, nodupN (a ++ b) = true -> memN t b = true -> memN t a = false.
-Proof.
-  induction a as [|x a IH]; intros b t H M; cbn in *; [reflexivity|].
-  apply andb_true_iff in H. destruct H as [H1 H2].
-  destruct (N.eqb t x) eqn:E; cbn.
-  - apply N.eqb_eq in E. subst. rewrite memN_app, M, orb_true_r in H1. discriminate.
-  - eapply IH; eauto.
-Qed.
-
-Definition abort (o : outcome) : Prop := match o with Err _ | Hang => True | _ => False end.
 
 Section Rel.
   Variable em : form -> state -> mres * state.
   Variable es : form -> state -> outcome * state.
   Hypothesis Hclean : sclean es.
-  Hypothesis Hmv : mvsafe em.
 
-  Lemma seq_rel : forall pb stop R1 G1 R2 G2,
-    (forall t v, memN t R1 = true -> stop (VRetM t v) = true) ->
-    (forall t, memN t G1 = true -> stop (VGoM t) = true) ->
-    (forall v, is_marker v = false -> stop v = false) ->
-    (forall t, memN t R1 = true -> memN t R2 = true) ->
-    (forall t, memN t G1 = true -> memN t G2 = true) ->
-    (forall f, gd pb R1 G1 f = true -> related em es R1 G1 f) ->
-    (forall f, gd pb R2 G2 f = true -> related em es R2 G2 f) ->
-    forall fs lm ls st o st', g_seq gd pb R1 G1 R2 G2 fs = true -> norm lm = ls -> cleanb ls = true ->
+  (* every body loop: m_seq *)
+  Lemma seq_rel : forall R G,
+    (forall f, gd R G f = true -> related em es R G f) ->
+    forall fs lm ls st o st', g_all gd R G fs = true -> norm lm = ls -> cleanb ls = true ->
     s_seq es fs ls st = (o, st') -> o <> OOF ->
-    exists r, m_seq em stop fs lm st = (r, st') /\ norm_res r = to_mres o /\ exits_ok R2 G2 o.
+    exists r, m_seq em fs lm st = (r, st') /\ norm_res r = to_mres o /\ exits_ok R G o.
   Proof.
-    intros pb stop R1 G1 R2 G2 SR SG SN IR IG H1 H2.
+    intros R G H0.
     induction fs as [|f r IH]; intros lm ls st o st' Gd NL CL HS NO.
     - cbn in HS. inv HS. eexists. split; [reflexivity|]. split; [reflexivity | exact I].
-    - destruct r as [|f2 r2].
-      + (* last form *)
-        cbn in Gd. cbn in HS. destruct (es f st) as [o1 st1] eqn:E.
-        assert (o = o1 /\ st' = st1) as [-> ->] by (destruct o1; inv HS; auto).
-        destruct (H2 f Gd st o1 st1 E NO) as (r0 & EM & RL & EX).
-        exists r0. split; [| split; assumption].
-        cbn. rewrite EM. destruct r0; try reflexivity. destruct (stop v); reflexivity.
-      + cbn [g_seq] in Gd. apply andb_true_iff in Gd. destruct Gd as [Gf Gr].
-        cbn [s_seq] in HS. destruct (es f st) as [o1 st1] eqn:E.
-        assert (NO1 : o1 <> OOF) by (intro; subst; inv HS; congruence).
-        destruct (H1 f Gf st o1 st1 E NO1) as (r0 & EM & RL & EX).
-        pose proof (rel_inv _ _ RL (Hclean _ _ _ _ E)) as RI.
-        cbn [m_seq]. rewrite EM. destruct o1.
-        * destruct RI as (vm & -> & Nv & Mk & _). rewrite (SN _ Mk).
-          eapply IH; eauto. exact (Hclean _ _ _ _ E).
-        * destruct RI as (vm & -> & Nv). cbn in EX. rewrite (SR _ _ EX). inv HS.
-          eexists. split; [reflexivity|]. split; [cbn; reflexivity | cbn; auto].
-        * subst r0. cbn in EX. rewrite (SG _ EX). inv HS.
-          eexists. split; [reflexivity|]. split; [reflexivity | cbn; auto].
-        * subst r0. inv HS. eexists. split; [reflexivity|]. split; [reflexivity | exact I].
-        * subst r0. inv HS. eexists. split; [reflexivity|]. split; [reflexivity | exact I].
-        * congruence.
+    - cbn [g_all] in Gd. apply andb_true_iff in Gd. destruct Gd as [Gf Gr].
+      cbn [s_seq] in HS. destruct (es f st) as [o1 st1] eqn:E.
+      assert (NO1 : o1 <> OOF) by (intro; subst; inv HS; congruence).
+      destruct (H0 f Gf st o1 st1 E NO1) as (r0 & EM & RL & EX).
+      pose proof (rel_inv _ _ RL (Hclean _ _ _ _ E)) as RI.
+      cbn [m_seq]. rewrite EM. destruct o1.
+      + destruct RI as (vm & -> & Nv & Mk & _). rewrite Mk.
+        eapply IH; eauto. exact (Hclean _ _ _ _ E).
+      + destruct RI as (vm & -> & Nv). inv HS.
+        eexists. split; [reflexivity|]. split; [cbn; reflexivity | exact EX].
+      + subst r0. inv HS. eexists. split; [reflexivity|]. split; [reflexivity | exact EX].
+      + subst r0. inv HS. eexists. split; [reflexivity|]. split; [reflexivity | exact I].
+      + subst r0. inv HS. eexists. split; [reflexivity|]. split; [reflexivity | exact I].
+      + congruence.
   Qed.
 
-  (* progn-like bodies: m_seq never *)
-  Lemma progn_rel : forall pb R G,
-    (forall f, gd pb [] [] f = true -> related em es [] [] f) ->
-    (forall f, gd pb R G f = true -> related em es R G f) ->
-    forall fs st o st', g_seq gd pb [] [] R G fs = true ->
+  Lemma progn_rel : forall R G,
+    (forall f, gd R G f = true -> related em es R G f) ->
+    forall fs st o st', g_all gd R G fs = true ->
     s_seq es fs VNil st = (o, st') -> o <> OOF ->
-    exists r, m_seq em never fs VNil st = (r, st') /\ norm_res r = to_mres o /\ exits_ok R G o.
-  Proof.
-    intros. eapply seq_rel with (R1 := []) (G1 := []); eauto; try discriminate; reflexivity.
-  Qed.
+    exists r, m_seq em fs VNil st = (r, st') /\ norm_res r = to_mres o /\ exits_ok R G o.
+  Proof. intros. eapply seq_rel; eauto. Qed.
 
-  Lemma args_rel : forall pb,
-    (forall f, gd pb [] [] f = true -> related em es [] [] f) ->
-    forall fs acc st x st', g_all gd pb [] [] fs = true -> s_args es fs acc st = (x, st') -> x <> inl OOF ->
+  (* Function.Eval / processBinding: an exit in an argument ends the call *)
+  Lemma args_rel : forall R G,
+    (forall f, gd R G f = true -> related em es R G f) ->
+    forall fs acc st x st', g_all gd R G fs = true -> s_args es fs acc st = (x, st') -> x <> inl OOF ->
     match x with
     | inr vs => m_args em fs acc st = (inr vs, st')
-    | inl o => m_args em fs acc st = (inl (to_mres o), st') /\ abort o
+    | inl o => exists r, m_args em fs acc st = (inl r, st') /\ norm_res r = to_mres o /\ exits_ok R G o /\
+                         (forall v, o <> Normal v)
     end.
   Proof.
-    intros pb H0. induction fs as [|f r IH]; intros acc st x st' Gd HS NO; cbn in HS.
+    intros R G H0. induction fs as [|f r IH]; intros acc st x st' Gd HS NO; cbn in HS.
     - inv HS. reflexivity.
     - cbn in Gd. apply andb_true_iff in Gd. destruct Gd as [Gf Gr].
       destruct (es f st) as [o1 st1] eqn:E.
       assert (NO1 : o1 <> OOF) by (intro; subst; inv HS; congruence).
       destruct (H0 f Gf st o1 st1 E NO1) as (r0 & EM & RL & EX).
       pose proof (rel_inv _ _ RL (Hclean _ _ _ _ E)) as RI.
-      cbn [m_args]. rewrite EM. destruct o1; cbn in EX; try discriminate.
-      + destruct RI as (vm & -> & _ & _ & Pv). rewrite Pv. eapply IH; eauto.
-      + subst r0. inv HS. split; [reflexivity | exact I].
-      + subst r0. inv HS. split; [reflexivity | exact I].
+      cbn [m_args]. rewrite EM. destruct o1.
+      + destruct RI as (vm & -> & _ & Mk & Pv). rewrite Mk, Pv. eapply IH; eauto.
+      + destruct RI as (vm & -> & Nv). inv HS.
+        eexists. split; [reflexivity|]. split; [cbn; reflexivity|]. split; [exact EX | discriminate].
+      + subst r0. inv HS. eexists. split; [reflexivity|]. split; [reflexivity|]. split; [exact EX | discriminate].
+      + subst r0. inv HS. eexists. split; [reflexivity|]. split; [reflexivity|]. split; [exact I | discriminate].
+      + subst r0. inv HS. eexists. split; [reflexivity|]. split; [reflexivity|]. split; [exact I | discriminate].
       + congruence.
   Qed.
 
-  Lemma cond_rel : forall pb R G,
-    (forall f, gd pb [] [] f = true -> related em es [] [] f) ->
-    (forall f, gd pb R G f = true -> related em es R G f) ->
-    forall cs st o st', g_clauses gd pb R G cs = true -> s_cond es cs st = (o, st') -> o <> OOF ->
+  Lemma cond_rel : forall R G,
+    (forall f, gd R G f = true -> related em es R G f) ->
+    forall cs st o st', g_clauses gd R G cs = true -> s_cond es cs st = (o, st') -> o <> OOF ->
     exists r, m_cond em cs st = (r, st') /\ norm_res r = to_mres o /\ exits_ok R G o.
   Proof.
-    intros pb R G H0 H2. induction cs as [|[c b] cs IH]; intros st o st' Gd HS NO.
+    intros R G H0. induction cs as [|[c b] cs IH]; intros st o st' Gd HS NO.
     - cbn in HS. inv HS. eexists. split; [reflexivity|]. split; [reflexivity | exact I].
-    - cbn [g_clauses] in Gd. apply andb_true_iff in Gd. destruct Gd as [Gd Gcs]. apply andb_true_iff in Gd. destruct Gd as [Gd Gb].
-      apply andb_true_iff in Gd. destruct Gd as [Gc Gne].
+    - cbn [g_clauses] in Gd. apply andb_true_iff in Gd. destruct Gd as [Gd Gcs]. apply andb_true_iff in Gd. destruct Gd as [Gc Gb].
       cbn [s_cond] in HS. destruct (es c st) as [o1 st1] eqn:E.
       assert (NO1 : o1 <> OOF) by (intro; subst; inv HS; congruence).
       destruct (H0 c Gc st o1 st1 E NO1) as (r0 & EM & RL & EX).
-      pose proof (rel_inv _ _ RL (Hclean _ _ _ _ E)) as RI.
-      cbn [m_cond]. rewrite EM. destruct o1; cbn in EX; try discriminate.
+      pose proof (Hclean _ _ _ _ E) as C1.
+      pose proof (rel_inv _ _ RL C1) as RI.
+      cbn [m_cond]. rewrite EM. destruct o1.
       + destruct RI as (vm & -> & Nv & Mk & Pv).
-        rewrite Pv. destruct (is_nil v).
+        rewrite Pv, Mk. destruct (is_nil v).
         * eapply IH; eauto.
-        * destruct b; [discriminate|]. change (m_seq em never (f :: b) v st1) with (m_seq em never (f :: b) VNil st1). eapply progn_rel; eauto.
+        * destruct b as [|f b].
+          -- inv HS. eexists. split; [reflexivity|]. split; [| exact I].
+             cbn. cbn in C1. rewrite (clean_norm _ C1). reflexivity.
+          -- change (m_seq em (f :: b) v st1) with (m_seq em (f :: b) VNil st1). eapply progn_rel; eauto.
+      + destruct RI as (vm & -> & Nv). inv HS.
+        eexists. split; [reflexivity|]. split; [cbn; reflexivity | exact EX].
+      + subst r0. inv HS. eexists. split; [reflexivity|]. split; [reflexivity | exact EX].
       + subst r0. inv HS. eexists. split; [reflexivity|]. split; [reflexivity | exact I].
       + subst r0. inv HS. eexists. split; [reflexivity|]. split; [reflexivity | exact I].
+      + congruence.
+  Qed.
+
+  (* one pass of the statement loop; own = the tags of the body, G = the tags visible around it *)
+  Definition step_rel (onret : N -> value -> value) (R G own : list N) (x : sstep) (y : mstep) : Prop :=
+    match x with
+    | SDone => y = MDone
+    | SJump t => y = MJump t
+    | SOut o =>
+        match o with
+        | Ret t v => exists vm, y = MOut (MVal (onret t vm)) /\ norm vm = v /\ memN t R = true
+        | Goto t => y = MOut (MVal (VGoM t)) /\ memN t G = true
+        | Err c => y = MOut (MErr c)
+        | Hang => y = MOut MHang
+        | Normal _ | OOF => False
+        end
+    end.
+
+  Lemma pass_rel : forall onret R G own,
+    (forall f, gd R (own ++ G) f = true -> related em es R (own ++ G) f) ->
+    forall items st x st', g_items gd R (own ++ G) items = true ->
+      s_pass es own items st = (x, st') -> x <> SOut OOF ->
+      exists y, m_pass em onret own items st = (y, st') /\ step_rel onret R G own x y.
+  Proof.
+    intros onret R G own H0. induction items as [|[t|f] items IH]; intros st x st' Gd HS NO.
+    - cbn in HS. inv HS. exists MDone. split; reflexivity.
+    - cbn in HS, Gd |- *. eapply IH; eauto.
+    - cbn [g_items] in Gd. apply andb_true_iff in Gd. destruct Gd as [Gd Gr].
+      apply andb_true_iff in Gd. destruct Gd as [_ Gf].
+      cbn [s_pass] in HS. destruct (es f st) as [o1 st1] eqn:E.
+      assert (NO1 : o1 <> OOF) by (intro; subst; inv HS; congruence).
+      destruct (H0 f Gf st o1 st1 E NO1) as (r0 & EM & RL & EX).
+      pose proof (rel_inv _ _ RL (Hclean _ _ _ _ E)) as RI.
+      cbn [m_pass]. rewrite EM. destruct o1.
+      + destruct RI as (vm & -> & _ & Mk & _).
+        assert (X : exists y, m_pass em onret own items st1 = (y, st') /\ step_rel onret R G own x y) by (eapply IH; eauto).
+        destruct vm; cbn in Mk; try discriminate; exact X.
+      + destruct RI as (vm & -> & Nv). inv HS. eexists. split; [reflexivity|]. cbn. exists vm. auto.
+      + subst r0. cbn in EX. rewrite memN_app in EX. destruct (memN t own) eqn:MO; inv HS.
+        * eexists. split; [reflexivity | reflexivity].
+        * eexists. split; [reflexivity|]. cbn. split; [reflexivity | exact EX].
+      + subst r0. inv HS. eexists. split; reflexivity.
+      + subst r0. inv HS. eexists. split; reflexivity.
       + congruence.
   Qed.
 
   (* what the statement loop hands to the form around it *)
-  Definition items_out (onret : N -> value -> option value) (Ri : list N) (o : outcome) (x : option mres) : Prop :=
+  Definition items_out (onret : N -> value -> value) (R G : list N) (o : outcome) (x : option mres) : Prop :=
     match o with
     | Normal v => x = None /\ v = VNil
-    | Ret t v => exists vm y, onret t vm = Some y /\ norm vm = v /\ x = Some (MVal y) /\ memN t Ri = true
+    | Ret t v => exists vm, x = Some (MVal (onret t vm)) /\ norm vm = v /\ memN t R = true
+    | Goto t => x = Some (MVal (VGoM t)) /\ memN t G = true
     | Err c => x = Some (MErr c)
     | Hang => x = Some MHang
-    | Goto _ | OOF => False
+    | OOF => False
     end.
 
-  Lemma items_rel : forall pbi evt onret Ri all k0,
-    (evt = true -> forallb (fun t => negb (sym_tag t)) (tags_of all) = true) ->
-    nodupN (tags_of all) = true ->
-    (forall t v, memN t Ri = true -> onret t v <> None) ->
-    (forall f G, gd pbi Ri G f = true -> (forall t, memN t G = true -> memN t (tags_of all) = true) ->
-                 related em es Ri G f) ->
-    forall len items pre k st o st', length items <= len -> all = pre ++ items -> k <= k0 ->
-      g_items gd pbi Ri items = true ->
+  Lemma tagbody_rel : forall onret R G all,
+    (forall f, gd R (tags_of all ++ G) f = true -> related em es R (tags_of all ++ G) f) ->
+    g_items gd R (tags_of all ++ G) all = true ->
+    forall k items st o st', g_items gd R (tags_of all ++ G) items = true ->
       s_tagbody es all k items st = (o, st') -> o <> OOF ->
-      exists x, m_items em evt onret None items st = (x, st') /\ items_out onret Ri o x.
+      exists x, m_tagbody em onret all k items st = (x, st') /\ items_out onret R G o x.
   Proof.
-    intros pbi evt onret Ri all k0 SY ND OR H0.
-    induction len as [|len IH]; intros items pre k st o st' LE AL KK Gd HS NO.
-    - destruct items; [| cbn in LE; lia]. rewrite s_tagbody_eq in HS. cbn in HS. inv HS.
-      exists None. split; [reflexivity | split; reflexivity].
-    - destruct items as [|[t|f] r].
-      + rewrite s_tagbody_eq in HS. cbn in HS. inv HS. exists None. split; [reflexivity | split; reflexivity].
-      + (* a tag *)
-        assert (HS' : s_tagbody es all k r st = (o, st')) by (rewrite s_tagbody_eq in HS |- *; exact HS).
-        assert (ST : evt && sym_tag t = false).
-        { destruct evt; [| reflexivity]. cbn. specialize (SY eq_refl). rewrite AL, tags_of_app in SY.
-          rewrite forallb_app in SY. apply andb_true_iff in SY. destruct SY as [_ SY]. cbn in SY.
-          apply andb_true_iff in SY. destruct SY as [SY _]. apply negb_true_iff in SY. exact SY. }
-        cbn [m_items]. rewrite ST.
-        eapply (IH r (pre ++ [ITag t])); eauto; [cbn in LE; lia | rewrite <- app_assoc; exact AL].
-      + (* a statement *)
-        cbn [g_items] in Gd. apply andb_true_iff in Gd. destruct Gd as [Gd Gr].
-        apply andb_true_iff in Gd. destruct Gd as [_ Gf].
-        rewrite s_tagbody_eq in HS. cbn [s_pass] in HS. destruct (es f st) as [o1 st1] eqn:E.
-        assert (NO1 : o1 <> OOF) by (intro; subst; inv HS; congruence).
-        assert (SUB : forall t, memN t (tags_of r) = true -> memN t (tags_of all) = true).
-        { intros t Ht. rewrite AL, tags_of_app, memN_app. cbn [tags_of]. rewrite Ht. apply orb_true_r. }
-        destruct (H0 f _ Gf SUB st o1 st1 E NO1) as (r0 & EM & RL & EX).
-        pose proof (rel_inv _ _ RL (Hclean _ _ _ _ E)) as RI.
-        cbn [m_items]. rewrite EM. destruct o1.
-        * destruct RI as (vm & -> & _ & Mk & _).
-          assert (HS' : s_tagbody es all k r st1 = (o, st')) by (rewrite s_tagbody_eq; exact HS).
-          assert (X : exists x, m_items em evt onret None r st1 = (x, st') /\ items_out onret Ri o x).
-          { eapply (IH r (pre ++ [IForm f])); eauto; [cbn in LE; lia | rewrite <- app_assoc; exact AL]. }
-          destruct vm; cbn in Mk; try discriminate; exact X.
-        * destruct RI as (vm & -> & Nv). cbn in EX. inv HS.
-          destruct (onret t vm) as [y|] eqn:OY; [| exfalso; eapply OR; eauto].
-          eexists. split; [reflexivity|]. cbn. exists vm, y. auto.
-        * subst r0. cbn in EX. rewrite (SUB _ EX) in HS.
-          destruct k as [|k']; [inv HS; congruence|].
-          rewrite m_items_skip.
-          assert (AT : after_tag t all = after_tag t r).
-          { rewrite AL. rewrite (after_tag_app t pre (IForm f :: r)); [reflexivity|].
-            rewrite AL, tags_of_app in ND. eapply nodup_app_l; eauto. }
-          rewrite AT in HS.
-          destruct (after_tag_suffix t r) as [pre' PR].
-          eapply (IH (after_tag t r) (pre ++ IForm f :: pre') k'); eauto.
-          -- pose proof (after_tag_length t r). cbn in LE. lia.
-          -- rewrite AL. rewrite <- app_assoc. cbn. rewrite <- PR. reflexivity.
-          -- lia.
-          -- apply g_items_after. exact Gr.
-        * subst r0. inv HS. eexists. split; [reflexivity | reflexivity].
-        * subst r0. inv HS. eexists. split; [reflexivity | reflexivity].
-        * congruence.
+    intros onret R G all H0 GA. induction k as [|k IH]; intros items st o st' Gd HS NO;
+      rewrite s_tagbody_eq in HS; rewrite m_tagbody_eq;
+      destruct (s_pass es (tags_of all) items st) as [x st1] eqn:E;
+      (assert (NX : x <> SOut OOF) by (intro; subst; inv HS; congruence));
+      destruct (pass_rel onret R G (tags_of all) H0 items st x st1 Gd E NX) as (y & EM & SR);
+      rewrite EM; destruct x; cbn in SR.
+    - subst y. inv HS. eexists. split; [reflexivity | split; reflexivity].
+    - inv HS. destruct o; try contradiction.
+      + destruct SR as (vm & -> & Nv & Mr). eexists. split; [reflexivity|]. cbn. exists vm. auto.
+      + destruct SR as [-> Mg]. eexists. split; [reflexivity|]. cbn. auto.
+      + subst y. eexists. split; reflexivity.
+      + subst y. eexists. split; reflexivity.
+    - inv HS. congruence.
+    - subst y. inv HS. eexists. split; [reflexivity | split; reflexivity].
+    - inv HS. destruct o; try contradiction.
+      + destruct SR as (vm & -> & Nv & Mr). eexists. split; [reflexivity|]. cbn. exists vm. auto.
+      + destruct SR as [-> Mg]. eexists. split; [reflexivity|]. cbn. auto.
+      + subst y. eexists. split; reflexivity.
+      + subst y. eexists. split; reflexivity.
+    - subst y. eapply IH; eauto. apply g_items_after. exact GA.
   Qed.
 
-  Lemma iter_rel : forall pbi onret Ri body k,
-    nodupN (tags_of body) = true ->
-    (forall t v, memN t Ri = true -> onret t v <> None) ->
-    (forall f G, gd pbi Ri G f = true -> (forall t, memN t G = true -> memN t (tags_of body) = true) ->
-                 related em es Ri G f) ->
-    g_items gd pbi Ri body = true ->
+  Lemma iter_rel : forall onret R G body k,
+    (forall f, gd R (tags_of body ++ G) f = true -> related em es R (tags_of body ++ G) f) ->
+    g_items gd R (tags_of body ++ G) body = true ->
     forall n st o st', s_iter es k n body st = (o, st') -> o <> OOF ->
-      exists x, m_iter em onret n body st = (x, st') /\ items_out onret Ri o x.
+      exists x, m_iter em onret k n body st = (x, st') /\ items_out onret R G o x.
   Proof.
-    intros pbi onret Ri body k ND OR H0 Gd. induction n as [|n IH]; intros st o st' HS NO; cbn in HS.
+    intros onret R G body k H0 Gd. induction n as [|n IH]; intros st o st' HS NO; cbn in HS.
     - inv HS. exists None. split; [reflexivity | split; reflexivity].
     - destruct (s_tagbody es body k body st) as [o1 st1] eqn:E.
       assert (NO1 : o1 <> OOF) by (intro; subst; inv HS; congruence).
-      destruct (items_rel pbi false onret Ri body k (fun H => False_ind _ (Bool.diff_false_true H)) ND OR H0
-                  (length body) body [] k st o1 st1 (le_n _) eq_refl (le_n _) Gd E NO1) as (x & EM & IO).
+      destruct (tagbody_rel onret R G body H0 Gd k body st o1 st1 Gd E NO1) as (x & EM & IO).
       cbn [m_iter]. rewrite EM. destruct o1; cbn in IO.
       + destruct IO as [-> _]. eapply IH; eauto.
-      + destruct IO as (vm & y & OY & Nv & -> & Mr). inv HS. eexists. split; [reflexivity|].
-        cbn. exists vm, y. auto.
-      + contradiction.
+      + destruct IO as (vm & -> & Nv & Mr). inv HS. eexists. split; [reflexivity|]. cbn. exists vm. auto.
+      + destruct IO as [-> Mg]. inv HS. eexists. split; [reflexivity|]. cbn. auto.
       + subst x. inv HS. eexists. split; reflexivity.
       + subst x. inv HS. eexists. split; reflexivity.
       + contradiction.
   Qed.
 End Rel.
 
-(* progn.go (after repo_fixes/C01-10) evaluates its forms itself: progn is progn_rel (m_seq never), like the body of when *)
-
 (* ---- contexts ---------------------------------------------------------------------------------------- *)
 (* what ties the guard's sets to the two evaluators' contexts: a block in R is on the scope chain InBlock
-   walks and lexically visible; a tag in G is lexically visible and the TagBody flag is set; pb tells the
-   truth about the innermost scope *)
-Definition ctx_ok (pb : bool) (R G : list N) (sc : list scope) (tb : bool) (bl tg : list N) : Prop :=
+   walks and lexically visible; a tag in G is lexically visible and the TagBody flag is set *)
+Definition ctx_ok (R G : list N) (sc : list scope) (tb : bool) (bl tg : list N) : Prop :=
   (forall t, memN t R = true -> in_block sc t = true /\ memN t bl = true) /\
-  (forall t, memN t G = true -> tb = true /\ memN t tg = true) /\
-  (pb = true -> head_block sc = true).
+  (forall t, memN t G = true -> tb = true /\ memN t tg = true).
 
-Lemma ctx_noexit : forall pb R G sc tb bl tg, ctx_ok pb R G sc tb bl tg -> ctx_ok pb [] [] sc tb bl tg.
-Proof. intros ? ? ? ? ? ? ? (A & B & C). repeat split; try discriminate. exact C. Qed.
-Lemma ctx_nogo : forall pb R G sc tb bl tg, ctx_ok pb R G sc tb bl tg -> ctx_ok pb R [] sc tb bl tg.
-Proof. intros ? ? ? ? ? ? ? (A & B & C). repeat split; try discriminate; try apply A; auto. Qed.
-Lemma ctx_plain : forall pb R G sc tb bl tg, ctx_ok pb R G sc tb bl tg -> ctx_ok false R G ((false, 0%N) :: sc) tb bl tg.
+Lemma ctx_plain : forall R G sc tb bl tg, ctx_ok R G sc tb bl tg -> ctx_ok R G ((false, 0%N) :: sc) tb bl tg.
 Proof.
-  intros ? ? ? ? ? ? ? (A & B & C). split; [| split; [exact B | discriminate]].
+  intros ? ? ? ? ? ? (A & B). split; [| exact B].
   intros t H. apply A in H. destruct H. split; [cbn; assumption | assumption].
 Qed.
-Lemma ctx_block : forall t pb R G sc tb bl tg, ctx_ok pb R G sc tb bl tg ->
-  ctx_ok true (t :: R) G ((true, t) :: sc) tb (t :: bl) tg.
+Lemma ctx_block : forall t R G sc tb bl tg, ctx_ok R G sc tb bl tg ->
+  ctx_ok (t :: R) G ((true, t) :: sc) tb (t :: bl) tg.
 Proof.
-  intros t ? ? ? ? ? ? ? (A & B & C). split; [| split; [exact B | reflexivity]].
+  intros t ? ? ? ? ? ? (A & B). split; [| exact B].
   intros t' H. cbn in H |- *. rewrite N.eqb_sym. destruct (N.eqb t' t); cbn; [split; reflexivity|].
   cbn in H. apply A in H. exact H.
 Qed.
-Lemma ctx_lam : forall nm pb R G sc tb bl tg, ctx_ok pb R G sc tb bl tg ->
-  ctx_ok true R G ((true, nm) :: sc) tb bl tg.
+Lemma ctx_lam : forall nm R G sc tb bl tg, ctx_ok R G sc tb bl tg ->
+  ctx_ok R G ((true, nm) :: sc) tb bl tg.
 Proof.
-  intros nm ? ? ? ? ? ? ? (A & B & C). split; [| split; [exact B | reflexivity]].
+  intros nm ? ? ? ? ? ? (A & B). split; [| exact B].
   intros t' H. apply A in H. destruct H as [H1 H2]. split; [| exact H2]. unfold in_block in *. cbn [existsb]. rewrite H1. apply orb_true_r.
 Qed.
-
-Lemma g_all_seq : forall pb R G fs, g_all gd pb R G fs = true -> g_seq gd pb R G R G fs = true.
+(* entering a tagbody-like body with the tags own: the flag is set, the tags are visible *)
+Lemma ctx_tags : forall own R G sc tb bl tg, ctx_ok R G sc tb bl tg -> ctx_ok R (own ++ G) sc true bl (own ++ tg).
 Proof.
-  induction fs as [|f r IH]; cbn; intro H; [reflexivity|].
-  apply andb_true_iff in H. destruct H as [H1 H2]. destruct r; [exact H1|]. rewrite H1. cbn. apply IH. exact H2.
+  intros own ? ? ? ? ? ? (A & B). split; [exact A|].
+  intros t H. split; [reflexivity|]. rewrite memN_app in H |- *. destruct (memN t own); [reflexivity|].
+  cbn in H |- *. apply B in H. apply H.
 Qed.
+
 Lemma gd_defs_nth : forall defs k i body, gd_defs k defs = true -> nth_error defs i = Some body ->
-  g_all gd true [fn_tag (k + i)] [] body = true.
+  g_all gd [fn_tag (k + i)] [] body = true.
 Proof.
   induction defs as [|b defs IH]; intros k i body H E; [destruct i; discriminate|].
   cbn in H. apply andb_true_iff in H. destruct H as [H1 H2]. destruct i; cbn in E.
@@ -592,17 +454,35 @@ Qed.
 
 Ltac fin := eexists; split; [reflexivity | split; [reflexivity | first [exact I | assumption | cbn; auto]]].
 
+(* the catch of a block / of the nil block of a loop on both sides *)
+Lemma catch_rel : forall t R G r0 o1 st1 o st',
+  norm_res r0 = to_mres o1 -> oclean o1 -> exits_ok (t :: R) G o1 -> o1 <> OOF ->
+  catch t (o1, st1) = (o, st') ->
+  exists r, m_catch t (r0, st1) = (r, st') /\ norm_res r = to_mres o /\ exits_ok R G o.
+Proof.
+  intros t R G r0 o1 st1 o st' RL C1 EX NO HS.
+  pose proof (rel_inv _ _ RL C1) as RI. destruct o1; cbn [catch] in HS.
+  - destruct RI as (vm & -> & Nv & Mk & _). inv HS.
+    exists (MVal vm). split; [destruct vm; cbn in Mk; try discriminate; reflexivity|].
+    split; [cbn; reflexivity | exact I].
+  - destruct RI as (vm & -> & Nv). cbn in EX. cbn [m_catch]. destruct (N.eqb t t0) eqn:TE; inv HS.
+    + eexists. split; [reflexivity|]. split; [reflexivity | exact I].
+    + eexists. split; [reflexivity|]. split; [reflexivity|]. cbn. rewrite N.eqb_sym, TE in EX. exact EX.
+  - subst r0. inv HS. fin.
+  - subst r0. inv HS. fin.
+  - subst r0. inv HS. fin.
+  - congruence.
+Qed.
+
 (* ---- the theorem ------------------------------------------------------------------------------------- *)
-Theorem refine : forall defs, gd_defs 0 defs = true -> forall fuel pb R G sc tb bl tg f,
-  gd pb R G f = true -> ctx_ok pb R G sc tb bl tg ->
+Theorem refine : forall defs, gd_defs 0 defs = true -> forall fuel R G sc tb bl tg f,
+  gd R G f = true -> ctx_ok R G sc tb bl tg ->
   related (meval defs fuel sc tb) (seval defs fuel bl tg) R G f.
 Proof.
-  intros defs GD. induction fuel as [|n IH]; intros pb R G sc tb bl tg f Gd CX st o st' HS NO.
+  intros defs GD. induction fuel as [|n IH]; intros R G sc tb bl tg f Gd CX st o st' HS NO.
   - cbn in HS. inv HS. congruence.
-  - pose proof (seval_clean defs n) as CL. pose proof (meval_mv defs n) as MV.
-    assert (IH0 : forall f, gd pb [] [] f = true -> related (meval defs n sc tb) (seval defs n bl tg) [] [] f)
-      by (intros; eapply IH; eauto using ctx_noexit).
-    assert (IHRG : forall f, gd pb R G f = true -> related (meval defs n sc tb) (seval defs n bl tg) R G f)
+  - pose proof (seval_clean defs n) as CL.
+    assert (IHRG : forall f, gd R G f = true -> related (meval defs n sc tb) (seval defs n bl tg) R G f)
       by (intros; eapply IH; eauto).
     destruct f; cbn [seval] in HS; cbn [meval]; cbn [gd] in Gd.
     + (* Const *) inv HS. eexists. split; [reflexivity|]. split; [destruct l; reflexivity | exact I].
@@ -614,10 +494,9 @@ Proof.
     + (* Setv *) inv HS. fin.
     + (* CallList *)
       destruct (s_args (seval defs n bl tg) args [] st) as [[o1|vs] st1] eqn:E; inv HS.
-      * pose proof (args_rel _ _ (CL bl tg) pb IH0 args [] st _ _ Gd E) as X. cbn in X.
-        destruct X as [X A]; [congruence|]. rewrite X.
-        destruct o; try contradiction; fin.
-      * pose proof (args_rel _ _ (CL bl tg) pb IH0 args [] st _ _ Gd E) as X. cbn in X.
+      * pose proof (args_rel _ _ (CL bl tg) R G IHRG args [] st _ _ Gd E) as X. cbn in X.
+        destruct X as (r & X & RL & EX & _); [congruence|]. rewrite X. exists r. auto.
+      * pose proof (args_rel _ _ (CL bl tg) R G IHRG args [] st _ _ Gd E) as X. cbn in X.
         rewrite X by discriminate. eexists. split; [reflexivity|]. split; [| exact I].
         cbn. rewrite (clean_norm _ (clean_mk_list vs)). reflexivity.
     + (* Progn *)
@@ -626,12 +505,14 @@ Proof.
       apply andb_true_iff in Gd. destruct Gd as [G2 G3].
       destruct (seval defs n bl tg f st) as [o1 st1] eqn:E.
       assert (NO1 : o1 <> OOF) by (intro; subst; inv HS; congruence).
-      destruct (IH0 f G2 st o1 st1 E NO1) as (r0 & EM & RL & EX).
+      destruct (IHRG f G2 st o1 st1 E NO1) as (r0 & EM & RL & EX).
       pose proof (rel_inv _ _ RL (CL _ _ _ _ _ _ E)) as RI.
-      rewrite EM. destruct o1; cbn in EX; try discriminate.
+      rewrite EM. destruct o1.
       * destruct RI as (vm & -> & Nv & Mk & Pv).
-        rewrite Pv. destruct (is_nil v); [inv HS; fin|].
+        rewrite Mk, Pv. destruct (is_nil v); [inv HS; fin|].
         eapply progn_rel; eauto.
+      * destruct RI as (vm & -> & Nv). inv HS. eexists. split; [reflexivity|]. split; [reflexivity | exact EX].
+      * try subst r0. inv HS. fin.
       * try subst r0. inv HS. fin.
       * try subst r0. inv HS. fin.
       * congruence.
@@ -639,77 +520,62 @@ Proof.
     + (* Let *)
       apply andb_true_iff in Gd. destruct Gd as [G1 G2].
       destruct (s_args (seval defs n bl tg) inits [] st) as [[o1|vs] st1] eqn:E.
-      * inv HS. pose proof (args_rel _ _ (CL bl tg) pb IH0 inits [] st _ _ G1 E) as X. cbn in X.
-        destruct X as [X A]; [congruence|]. rewrite X. destruct o; try contradiction; fin.
-      * pose proof (args_rel _ _ (CL bl tg) pb IH0 inits [] st _ _ G1 E) as X. cbn in X.
+      * inv HS. pose proof (args_rel _ _ (CL bl tg) R G IHRG inits [] st _ _ G1 E) as X. cbn in X.
+        destruct X as (r & X & RL & EX & _); [congruence|]. rewrite X. exists r. auto.
+      * pose proof (args_rel _ _ (CL bl tg) R G IHRG inits [] st _ _ G1 E) as X. cbn in X.
         rewrite X by discriminate.
-        eapply (seq_rel _ _ (CL bl tg) false is_marker R G R G); eauto using g_all_seq.
-        -- intros f Gf. eapply IH; eauto using ctx_plain.
-        -- intros f Gf. eapply IH; eauto using ctx_plain.
+        eapply (progn_rel (meval defs n ((false, 0%N) :: sc) tb) _ (CL bl tg) R G);
+          [intros f Gf; eapply IH; eauto using ctx_plain | exact G2 | exact HS | exact NO].
     + (* Block *)
       destruct (s_seq (seval defs n (t :: bl) tg) body VNil st) as [o1 st1] eqn:E.
       assert (NO1 : o1 <> OOF).
       { intro; subst. cbn in HS. inv HS. congruence. }
-      destruct (seq_rel (meval defs n ((true, t) :: sc) tb) _ (CL (t :: bl) tg) true is_ret (t :: R) [] (t :: R) G)
-        with (fs := body) (lm := VNil) (ls := VNil) (st := st) (o := o1) (st' := st1) as (r0 & EM & RL & EX); auto.
-      { intros v Mk. destruct v; cbn in *; congruence. }
-      { discriminate. }
-      { intros f Gf. eapply IH; eauto using ctx_block, ctx_nogo. }
+      destruct (progn_rel (meval defs n ((true, t) :: sc) tb) _ (CL (t :: bl) tg) (t :: R) G)
+        with (fs := body) (st := st) (o := o1) (st' := st1) as (r0 & EM & RL & EX); auto.
       { intros f Gf. eapply IH; eauto using ctx_block. }
       assert (C1 : oclean o1) by (eapply s_progn_clean; eauto).
-      pose proof (rel_inv _ _ RL C1) as RI.
-      rewrite EM. destruct o1; cbn [catch] in HS.
-      * destruct RI as (vm & -> & Nv & Mk & _). inv HS.
-        exists (MVal vm). split; [destruct vm; cbn in Mk; try discriminate; reflexivity|].
-        split; [first [exact RL | cbn; congruence | cbn; reflexivity] | exact I].
-      * destruct RI as (vm & -> & Nv). cbn in EX. destruct (N.eqb t t0) eqn:TE; inv HS.
-        -- eexists. split; [reflexivity|]. split; [reflexivity | exact I].
-        -- eexists. split; [reflexivity|]. split; [reflexivity|]. cbn. rewrite N.eqb_sym, TE in EX. exact EX.
-      * try subst r0. inv HS. fin.
-      * try subst r0. inv HS. fin.
-      * try subst r0. inv HS. fin.
-      * congruence.
+      rewrite EM. eapply catch_rel; eauto.
     + (* ReturnFrom *)
       apply andb_true_iff in Gd. destruct Gd as [G1 G2].
-      destruct CX as (CA & CB & CC). destruct (CA _ G1) as [IB MB]. rewrite IB. rewrite MB in HS.
+      destruct CX as (CA & CB). destruct (CA _ G1) as [IB MB]. rewrite IB. rewrite MB in HS.
       destruct (seval defs n bl tg f st) as [o1 st1] eqn:E.
       assert (NO1 : o1 <> OOF) by (intro; subst; inv HS; congruence).
-      destruct (IH0 f G2 st o1 st1 E NO1) as (r0 & EM & RL & EX).
+      destruct (IHRG f G2 st o1 st1 E NO1) as (r0 & EM & RL & EX).
       pose proof (rel_inv _ _ RL (CL _ _ _ _ _ _ E)) as RI.
-      rewrite EM. destruct o1; cbn in EX; try discriminate.
-      * destruct RI as (vm & -> & Nv & _). inv HS. eexists. split; [reflexivity|]. split; [reflexivity | exact G1].
+      rewrite EM. destruct o1.
+      * destruct RI as (vm & -> & Nv & Mk & _). rewrite Mk. inv HS. eexists. split; [reflexivity|]. split; [reflexivity | exact G1].
+      * destruct RI as (vm & -> & Nv). inv HS. eexists. split; [reflexivity|]. split; [reflexivity | exact EX].
+      * try subst r0. inv HS. fin.
       * try subst r0. inv HS. fin.
       * try subst r0. inv HS. fin.
       * congruence.
     + (* Return *)
       apply andb_true_iff in Gd. destruct Gd as [G1 G2].
-      destruct CX as (CA & CB & CC). destruct (CA _ G1) as [IB MB]. rewrite IB. rewrite MB in HS.
+      destruct CX as (CA & CB). destruct (CA _ G1) as [IB MB]. rewrite IB. rewrite MB in HS.
       destruct (seval defs n bl tg f st) as [o1 st1] eqn:E.
       assert (NO1 : o1 <> OOF) by (intro; subst; inv HS; congruence).
-      destruct (IH0 f G2 st o1 st1 E NO1) as (r0 & EM & RL & EX).
+      destruct (IHRG f G2 st o1 st1 E NO1) as (r0 & EM & RL & EX).
       pose proof (rel_inv _ _ RL (CL _ _ _ _ _ _ E)) as RI.
-      rewrite EM. destruct o1; cbn in EX; try discriminate.
-      * destruct RI as (vm & -> & Nv & _). inv HS. eexists. split; [reflexivity|]. split; [reflexivity | exact G1].
+      rewrite EM. destruct o1.
+      * destruct RI as (vm & -> & Nv & Mk & _). rewrite Mk. inv HS. eexists. split; [reflexivity|]. split; [reflexivity | exact G1].
+      * destruct RI as (vm & -> & Nv). inv HS. eexists. split; [reflexivity|]. split; [reflexivity | exact EX].
+      * try subst r0. inv HS. fin.
       * try subst r0. inv HS. fin.
       * try subst r0. inv HS. fin.
       * congruence.
     + (* Tagbody *)
-      apply andb_true_iff in Gd. destruct Gd as [Gd G3]. apply andb_true_iff in Gd. destruct Gd as [G1 G2].
-      destruct (items_rel (meval defs n ((false, 0%N) :: sc) true) _ (CL bl (tags_of items ++ tg))
-                  false true onret_none [] items n (fun _ => G1) G2)
-        with (len := length items) (items := items) (pre := @nil item) (k := n) (st := st) (o := o) (st' := st')
+      destruct (tagbody_rel (meval defs n ((false, 0%N) :: sc) true) _ (CL bl (tags_of items ++ tg))
+                  onret_pass R G items) with (k := n) (items := items) (st := st) (o := o) (st' := st')
         as (x & EM & IO); auto.
-      { discriminate. }
-      { intros f G' Gf SUB. eapply IH; eauto. destruct CX as (CA & CB & CC).
-        split; [discriminate|]. split; [| discriminate].
-        intros t Ht. split; [reflexivity|]. rewrite memN_app, (SUB _ Ht). reflexivity. }
+      { intros f Gf. eapply IH; eauto using ctx_plain, ctx_tags. }
       rewrite EM. destruct o; cbn in IO; try contradiction.
       * destruct IO as [-> ->]. fin.
-      * destruct IO as (vm & y & _ & _ & _ & M0). discriminate.
+      * destruct IO as (vm & -> & Nv & Mr). eexists. split; [reflexivity|]. split; [cbn; subst v; reflexivity | exact Mr].
+      * destruct IO as [-> Mg]. fin.
       * try subst x. fin.
       * try subst x. fin.
     + (* Go *)
-      destruct CX as (CA & CB & CC). destruct (CB _ Gd) as [TB MG]. rewrite TB. rewrite MG in HS. inv HS.
+      destruct CX as (CA & CB). destruct (CB _ Gd) as [TB MG]. rewrite TB. rewrite MG in HS. inv HS.
       eexists. split; [reflexivity|]. split; [reflexivity | exact Gd].
     + (* UnwindProtect *)
       apply andb_true_iff in Gd. destruct Gd as [G1 G2].
@@ -719,54 +585,40 @@ Proof.
       pose proof (rel_inv _ _ RL (CL _ _ _ _ _ _ E)) as RI.
       rewrite EM.
       destruct (s_seq (seval defs n bl tg) cleanup VNil (log (ECleanup u) st1)) as [o2 st2] eqn:E2.
-      assert (X : o1 <> Hang -> o2 <> OOF ->
-                  exists r2, m_seq (meval defs n sc tb) never cleanup VNil (log (ECleanup u) st1) = (r2, st2) /\
-                             norm_res r2 = to_mres o2 /\ exits_ok [] [] o2).
-      { intros _ NO2. eapply progn_rel; eauto using g_all_seq. }
+      assert (X : o2 <> OOF ->
+                  exists r2, m_seq (meval defs n sc tb) cleanup VNil (log (ECleanup u) st1) = (r2, st2) /\
+                             norm_res r2 = to_mres o2 /\ exits_ok R G o2).
+      { intros NO2. eapply progn_rel; eauto. }
       assert (C2 : oclean o2) by (eapply s_progn_clean; eauto).
+      assert (FIN : forall r1, (r1 <> MHang) -> (r1 <> MOOF) -> norm_res r1 = to_mres o1 ->
+                    (match o1 with Hang | OOF => False | _ => True end) ->
+                    (match o2 with Normal _ => (o1, st2) | _ => (o2, st2) end) = (o, st') ->
+                    exists r, match m_seq (meval defs n sc tb) cleanup VNil (log (ECleanup u) st1) with
+                              | (MVal v, st2) => if is_marker v then (MVal v, st2) else (r1, st2)
+                              | (r2, st2) => (r2, st2)
+                              end = (r, st') /\ norm_res r = to_mres o /\ exits_ok R G o).
+      { intros r1 _ _ RL1 _ HS'.
+        assert (NO2 : o2 <> OOF) by (intro; subst; inv HS'; congruence).
+        destruct (X NO2) as (r2 & EM2 & RL2 & EX2). rewrite EM2.
+        pose proof (rel_inv _ _ RL2 C2) as RI2.
+        destruct o2.
+        - destruct RI2 as (vm2 & -> & _ & Mk2 & _). rewrite Mk2. inv HS'. exists r1. auto.
+        - destruct RI2 as (vm2 & -> & _). inv HS'. eexists. split; [reflexivity|]. split; [exact RL2 | exact EX2].
+        - try subst r2. inv HS'. fin.
+        - try subst r2. inv HS'. fin.
+        - try subst r2. inv HS'. fin.
+        - congruence. }
       destruct o1.
-      * destruct RI as (vm & -> & Nv & Mk & _).
-        assert (NO2 : o2 <> OOF) by (intro; subst; inv HS; congruence).
-        destruct (X ltac:(discriminate) NO2) as (r2 & EM2 & RL2 & EX2). rewrite EM2.
-        pose proof (rel_inv _ _ RL2 C2) as RI2.
-        destruct o2; cbn in EX2; try discriminate; inv HS.
-        -- destruct RI2 as (vm2 & -> & _). eexists. split; [reflexivity|]. split; [first [exact RL | cbn; congruence | cbn; reflexivity] | exact I].
-        -- try subst r2. fin.
-        -- try subst r2. fin.
-        -- congruence.
-      * destruct RI as (vm & -> & Nv).
-        assert (NO2 : o2 <> OOF) by (intro; subst; inv HS; congruence).
-        destruct (X ltac:(discriminate) NO2) as (r2 & EM2 & RL2 & EX2). rewrite EM2.
-        pose proof (rel_inv _ _ RL2 C2) as RI2.
-        destruct o2; cbn in EX2; try discriminate; inv HS.
-        -- destruct RI2 as (vm2 & -> & _). eexists. split; [reflexivity|]. split; [first [exact RL | cbn; congruence | cbn; reflexivity] | exact EX].
-        -- try subst r2. fin.
-        -- try subst r2. fin.
-        -- congruence.
-      * try subst r0.
-        assert (NO2 : o2 <> OOF) by (intro; subst; inv HS; congruence).
-        destruct (X ltac:(discriminate) NO2) as (r2 & EM2 & RL2 & EX2). rewrite EM2.
-        pose proof (rel_inv _ _ RL2 C2) as RI2.
-        destruct o2; cbn in EX2; try discriminate; inv HS.
-        -- destruct RI2 as (vm2 & -> & _). eexists. split; [reflexivity|]. split; [first [exact RL | cbn; congruence | cbn; reflexivity] | exact EX].
-        -- try subst r2. fin.
-        -- try subst r2. fin.
-        -- congruence.
-      * try subst r0.
-        assert (NO2 : o2 <> OOF) by (intro; subst; inv HS; congruence).
-        destruct (X ltac:(discriminate) NO2) as (r2 & EM2 & RL2 & EX2). rewrite EM2.
-        pose proof (rel_inv _ _ RL2 C2) as RI2.
-        destruct o2; cbn in EX2; try discriminate; inv HS.
-        -- destruct RI2 as (vm2 & -> & _). fin.
-        -- try subst r2. fin.
-        -- try subst r2. fin.
-        -- congruence.
+      * destruct RI as (vm & -> & _). apply FIN; auto; discriminate.
+      * destruct RI as (vm & -> & _). apply FIN; auto; discriminate.
+      * try subst r0. apply FIN; auto; discriminate.
+      * try subst r0. apply FIN; auto; discriminate.
       * try subst r0. inv HS. fin.
       * congruence.
     + (* IgnoreErrors *)
       destruct (s_seq (seval defs n bl tg) body VNil st) as [o1 st1] eqn:E.
       assert (NO1 : o1 <> OOF) by (intro; subst; inv HS; congruence).
-      destruct (progn_rel _ _ (CL bl tg) pb R G IH0 IHRG body st o1 st1 Gd E NO1) as (r0 & EM & RL & EX).
+      destruct (progn_rel _ _ (CL bl tg) R G IHRG body st o1 st1 Gd E NO1) as (r0 & EM & RL & EX).
       assert (C1 : oclean o1) by (eapply s_progn_clean; eauto).
       pose proof (rel_inv _ _ RL C1) as RI. rewrite EM.
       destruct o1; inv HS.
@@ -780,7 +632,7 @@ Proof.
       apply andb_true_iff in Gd. destruct Gd as [G1 G2].
       destruct (s_seq (seval defs n bl tg) body VNil st) as [o1 st1] eqn:E.
       assert (NO1 : o1 <> OOF) by (intro; subst; inv HS; congruence).
-      destruct (progn_rel _ _ (CL bl tg) pb R G IH0 IHRG body st o1 st1 G2 E NO1) as (r0 & EM & RL & EX).
+      destruct (progn_rel _ _ (CL bl tg) R G IHRG body st o1 st1 G2 E NO1) as (r0 & EM & RL & EX).
       assert (C1 : oclean o1) by (eapply s_progn_clean; eauto).
       pose proof (rel_inv _ _ RL C1) as RI. rewrite EM.
       destruct o1; try solve [inv HS].
@@ -794,7 +646,7 @@ Proof.
       destruct (N.testbit (locks st) m); [inv HS; fin|].
       destruct (s_seq (seval defs n bl tg) body VNil (lock m st)) as [o1 st1] eqn:E.
       assert (NO1 : o1 <> OOF) by (intro; subst; inv HS; congruence).
-      destruct (progn_rel _ _ (CL bl tg) pb R G IH0 IHRG body _ o1 st1 Gd E NO1) as (r0 & EM & RL & EX).
+      destruct (progn_rel _ _ (CL bl tg) R G IHRG body _ o1 st1 Gd E NO1) as (r0 & EM & RL & EX).
       assert (C1 : oclean o1) by (eapply s_progn_clean; eauto).
       pose proof (rel_inv _ _ RL C1) as RI. rewrite EM.
       destruct o1; inv HS.
@@ -807,10 +659,9 @@ Proof.
     + (* WithFile *)
       destruct (s_seq (seval defs n bl tg) body VNil (fopen f st)) as [o1 st1] eqn:E.
       assert (NO1 : o1 <> OOF) by (intro; subst; inv HS; congruence).
-      destruct (progn_rel (meval defs n ((false, 0%N) :: sc) tb) _ (CL bl tg) false R G) with (fs := body)
-        (st := fopen f st) (o := o1) (st' := st1) as (r0 & EM & RL & EX); auto.
-      { intros f0 Gf. eapply IH; eauto using ctx_plain, ctx_noexit. }
-      { intros f0 Gf. eapply IH; eauto using ctx_plain. }
+      destruct (progn_rel (meval defs n ((false, 0%N) :: sc) tb) _ (CL bl tg) R G) with (fs := body)
+        (st := fopen f st) (o := o1) (st' := st1) as (r0 & EM & RL & EX);
+        [intros f0 Gf; eapply IH; eauto using ctx_plain | exact Gd | exact E | exact NO1 |].
       assert (C1 : oclean o1) by (eapply s_progn_clean; eauto).
       pose proof (rel_inv _ _ RL C1) as RI. rewrite EM.
       destruct o1; inv HS.
@@ -821,101 +672,101 @@ Proof.
       * try subst r0. fin.
       * congruence.
     + (* Loop *)
-      apply andb_true_iff in Gd. destruct Gd as [Gd G3]. apply andb_true_iff in Gd. destruct Gd as [G1 G2].
+      apply andb_true_iff in Gd. destruct Gd as [G1 G3].
       destruct (s_iter (seval defs n (0%N :: bl) (tags_of body ++ tg)) n n0 body st) as [o1 st1] eqn:E.
       assert (NO1 : o1 <> OOF) by (intro; subst; cbn in HS; inv HS; congruence).
-      assert (CXL : forall G', (forall t, memN t G' = true -> memN t (tags_of body) = true) ->
-                    ctx_ok true (0%N :: R) G' ((true, 0%N) :: sc) true (0%N :: bl) (tags_of body ++ tg)).
-      { intros G' SUB. destruct (ctx_block 0%N _ _ _ _ _ _ _ CX) as (CA & _ & CC).
-        split; [exact CA|]. split; [| exact CC].
-        intros t Ht. split; [reflexivity|]. rewrite memN_app, (SUB _ Ht). reflexivity. }
       destruct (iter_rel (meval defs n ((true, 0%N) :: sc) true) _ (CL (0%N :: bl) (tags_of body ++ tg))
-                  true onret_loop (0%N :: R) body n G1) with (n := n0) (st := st) (o := o1) (st' := st1)
+                  onret_loop (0%N :: R) G body n) with (n := n0) (st := st) (o := o1) (st' := st1)
         as (x & EM & IO); auto.
-      { intros; discriminate. }
-      { intros f0 G' Gf SUB. eapply IH; eauto. }
+      { intros f0 Gf. eapply IH; eauto using ctx_block, ctx_tags. }
       rewrite EM. destruct o1; cbn in IO; try contradiction.
       * destruct IO as [-> _].
         destruct (seval defs n (0%N :: bl) tg f st1) as [o2 st2] eqn:E2.
         assert (NO2 : o2 <> OOF) by (intro; subst; cbn in HS; inv HS; congruence).
-        assert (CXR : ctx_ok true [] [] ((true, 0%N) :: sc) true (0%N :: bl) tg).
-        { split; [discriminate|]. split; [discriminate | reflexivity]. }
-        destruct (IH true [] [] _ true _ _ f G3 CXR st1 o2 st2 E2 NO2) as (r2 & EM2 & RL2 & EX2).
-        destruct o2; cbn in EX2; try discriminate; cbn in HS; inv HS;
-          (exists r2; split; [exact EM2 | split; [exact RL2 | exact I]]).
-      * destruct IO as (vm & y & OY & Nv & -> & Mr). unfold onret_loop in OY. inv OY.
-        cbn [catch] in HS. rewrite (N.eqb_sym t 0) . destruct (N.eqb 0 t) eqn:TE; inv HS.
+        assert (CXR : ctx_ok (0%N :: R) G ((true, 0%N) :: sc) true (0%N :: bl) tg).
+        { destruct (ctx_block 0%N _ _ _ _ _ _ CX) as (CA & CB). split; [exact CA|].
+          intros t Ht. split; [reflexivity | apply CB; exact Ht]. }
+        destruct (IH (0%N :: R) G _ true _ _ f G3 CXR st1 o2 st2 E2 NO2) as (r2 & EM2 & RL2 & EX2).
+        rewrite EM2. eapply catch_rel; eauto. eapply CL; eauto.
+      * destruct IO as (vm & -> & Nv & Mr). unfold onret_loop.
+        cbn [catch] in HS. rewrite (N.eqb_sym t 0). destruct (N.eqb 0 t) eqn:TE; inv HS.
         -- eexists. split; [reflexivity|]. split; [reflexivity | exact I].
         -- eexists. split; [reflexivity|]. split; [reflexivity|]. cbn. cbn in Mr. rewrite N.eqb_sym, TE in Mr. exact Mr.
+      * destruct IO as [-> Mg]. cbn in HS. inv HS. fin.
       * try subst x. cbn in HS. inv HS. fin.
       * try subst x. cbn in HS. inv HS. fin.
     + (* Do *)
-      apply andb_true_iff in Gd. destruct Gd as [Gd G3]. apply andb_true_iff in Gd. destruct Gd as [G1 G2].
+      apply andb_true_iff in Gd. destruct Gd as [G1 G3].
       destruct (s_iter (seval defs n (0%N :: bl) (tags_of body ++ tg)) n n0 body st) as [o1 st1] eqn:E.
       assert (NO1 : o1 <> OOF) by (intro; subst; cbn in HS; inv HS; congruence).
-      set (Ri := 0%N :: (if pb then R else [])) in *.
-      assert (CXL : forall G', (forall t, memN t G' = true -> memN t (tags_of body) = true) ->
-                    ctx_ok true Ri G' ((true, 0%N) :: sc) true (0%N :: bl) (tags_of body ++ tg)).
-      { intros G' SUB. destruct (ctx_block 0%N _ _ _ _ _ _ _ CX) as (CA & _ & CC).
-        split; [| split; [| exact CC]].
-        - intros t Ht. apply CA. subst Ri. cbn in Ht |- *. destruct (N.eqb t 0); [reflexivity|].
-          cbn in Ht |- *. destruct pb; [exact Ht | discriminate].
-        - intros t Ht. split; [reflexivity|]. rewrite memN_app, (SUB _ Ht). reflexivity. }
-      assert (OR : forall t v, memN t Ri = true -> onret_do (head_block sc) t v <> None).
-      { intros t v Ht. unfold onret_do. subst Ri. cbn in Ht. destruct (N.eqb t 0); [discriminate|].
-        cbn in Ht. destruct pb; [| discriminate]. destruct CX as (_ & _ & CC). rewrite (CC eq_refl). discriminate. }
       destruct (iter_rel (meval defs n ((true, 0%N) :: sc) true) _ (CL (0%N :: bl) (tags_of body ++ tg))
-                  true (onret_do (head_block sc)) Ri body n G1 OR) with (n := n0) (st := st) (o := o1) (st' := st1)
+                  onret_loop (0%N :: R) G body n) with (n := n0) (st := st) (o := o1) (st' := st1)
         as (x & EM & IO); auto.
-      { intros f0 G' Gf SUB. eapply IH; eauto. }
+      { intros f0 Gf. eapply IH; eauto using ctx_block, ctx_tags. }
       rewrite EM. destruct o1; cbn in IO; try contradiction.
       * destruct IO as [-> _].
         destruct (s_seq (seval defs n (0%N :: bl) tg) res VNil st1) as [o2 st2] eqn:E2.
         assert (NO2 : o2 <> OOF) by (intro; subst; cbn in HS; inv HS; congruence).
-        assert (CXR : ctx_ok true [] [] ((true, 0%N) :: sc) true (0%N :: bl) tg).
-        { split; [discriminate|]. split; [discriminate | reflexivity]. }
-        destruct (progn_rel (meval defs n ((true, 0%N) :: sc) true) _ (CL (0%N :: bl) tg) true [] []) with (fs := res)
-          (st := st1) (o := o2) (st' := st2) as (r2 & EM2 & RL2 & EX2); auto using g_all_seq.
-        { intros f0 Gf. eapply IH; eauto. }
-        { intros f0 Gf. eapply IH; eauto. }
-        destruct o2; cbn in EX2; try discriminate; cbn in HS; inv HS;
-          (exists r2; split; [exact EM2 | split; [exact RL2 | exact I]]).
-      * destruct IO as (vm & y & OY & Nv & -> & Mr). unfold onret_do in OY.
-        cbn [catch] in HS. rewrite (N.eqb_sym t 0) in OY. destruct (N.eqb 0 t) eqn:TE.
-        -- inv OY. inv HS. eexists. split; [reflexivity|]. split; [reflexivity | exact I].
-        -- destruct (head_block sc); inv OY. inv HS. eexists. split; [reflexivity|]. split; [reflexivity|].
-           cbn. subst Ri. cbn in Mr. rewrite N.eqb_sym, TE in Mr. cbn in Mr. destruct pb; [exact Mr | discriminate].
+        assert (CXR : ctx_ok (0%N :: R) G ((true, 0%N) :: sc) true (0%N :: bl) tg).
+        { destruct (ctx_block 0%N _ _ _ _ _ _ CX) as (CA & CB). split; [exact CA|].
+          intros t Ht. split; [reflexivity | apply CB; exact Ht]. }
+        destruct (progn_rel (meval defs n ((true, 0%N) :: sc) true) _ (CL (0%N :: bl) tg) (0%N :: R) G) with (fs := res)
+          (st := st1) (o := o2) (st' := st2) as (r2 & EM2 & RL2 & EX2);
+          [intros f0 Gf; eapply IH; eauto | exact G3 | exact E2 | exact NO2 |].
+        rewrite EM2. eapply catch_rel; eauto. eapply s_progn_clean; eauto.
+      * destruct IO as (vm & -> & Nv & Mr). unfold onret_loop.
+        cbn [catch] in HS. rewrite (N.eqb_sym t 0). destruct (N.eqb 0 t) eqn:TE; inv HS.
+        -- eexists. split; [reflexivity|]. split; [reflexivity | exact I].
+        -- eexists. split; [reflexivity|]. split; [reflexivity|]. cbn. cbn in Mr. rewrite N.eqb_sym, TE in Mr. exact Mr.
+      * destruct IO as [-> Mg]. cbn in HS. inv HS. fin.
       * try subst x. cbn in HS. inv HS. fin.
       * try subst x. cbn in HS. inv HS. fin.
     + (* Lam *)
-      eapply (seq_rel (meval defs n ((true, LAMBDA) :: sc) tb) _ (CL bl tg) true is_ret R [] R G); eauto.
-      * intros v Mk. destruct v; cbn in *; congruence.
-      * discriminate.
-      * intros f Gf. eapply IH; eauto using ctx_lam, ctx_nogo.
-      * intros f Gf. eapply IH; eauto using ctx_lam.
+      eapply (progn_rel (meval defs n ((true, LAMBDA) :: sc) tb) _ (CL bl tg) R G); eauto.
+      intros f Gf. eapply IH; eauto using ctx_lam.
     + (* CallU *)
       destruct (nth_error defs i) as [body|] eqn:NE; [| inv HS; fin].
       pose proof (gd_defs_nth _ 0 _ _ GD NE) as GB. cbn in GB.
       destruct (s_seq (seval defs n [fn_tag i] []) body VNil st) as [o1 st1] eqn:E.
       assert (NO1 : o1 <> OOF) by (intro; subst; cbn in HS; inv HS; congruence).
-      assert (CXF : ctx_ok true [fn_tag i] [] ((true, fn_tag i) :: sc) tb [fn_tag i] []).
-      { split; [| split; [discriminate | reflexivity]].
+      assert (CXF : ctx_ok [fn_tag i] [] ((true, fn_tag i) :: sc) tb [fn_tag i] []).
+      { split; [| discriminate].
         intros t Ht. cbn in Ht |- *. rewrite orb_false_r in Ht. rewrite N.eqb_sym, Ht. split; reflexivity. }
-      destruct (seq_rel (meval defs n ((true, fn_tag i) :: sc) tb) _ (CL [fn_tag i] []) true is_ret
-                  [fn_tag i] [] [fn_tag i] []) with (fs := body) (lm := VNil) (ls := VNil) (st := st) (o := o1) (st' := st1)
-        as (r0 & EM & RL & EX); auto using g_all_seq.
-      { intros v Mk. destruct v; cbn in *; congruence. }
-      { intros f Gf. eapply IH; eauto. }
-      { intros f Gf. eapply IH; eauto. }
+      destruct (progn_rel (meval defs n ((true, fn_tag i) :: sc) tb) _ (CL [fn_tag i] []) [fn_tag i] [])
+        with (fs := body) (st := st) (o := o1) (st' := st1) as (r0 & EM & RL & EX);
+        [intros f Gf; eapply IH; eauto | exact GB | exact E | exact NO1 |].
       assert (C1 : oclean o1) by (eapply s_progn_clean; eauto).
-      pose proof (rel_inv _ _ RL C1) as RI.
-      rewrite EM. destruct o1; cbn [catch] in HS.
-      * destruct RI as (vm & -> & Nv & Mk & _). inv HS.
-        exists (MVal vm). split; [destruct vm; cbn in Mk; try discriminate; reflexivity|].
-        split; [first [exact RL | cbn; congruence | cbn; reflexivity] | exact I].
-      * destruct RI as (vm & -> & Nv). cbn in EX. rewrite orb_false_r in EX.
-        rewrite EX. rewrite N.eqb_sym, EX in HS. inv HS. eexists. split; [reflexivity|]. split; [reflexivity | exact I].
-      * discriminate.
+      assert (EX' : exits_ok (fn_tag i :: R) G o1).
+      { destruct o1; cbn in EX |- *; try exact I; [| discriminate].
+        rewrite orb_false_r in EX. rewrite EX. reflexivity. }
+      rewrite EM.
+      eapply catch_rel; eauto.
+    + (* Unless *)
+      apply andb_true_iff in Gd. destruct Gd as [G2 G3].
+      destruct (seval defs n bl tg f st) as [o1 st1] eqn:E.
+      assert (NO1 : o1 <> OOF) by (intro; subst; inv HS; congruence).
+      destruct (IHRG f G2 st o1 st1 E NO1) as (r0 & EM & RL & EX).
+      pose proof (rel_inv _ _ RL (CL _ _ _ _ _ _ E)) as RI.
+      rewrite EM. destruct o1.
+      * destruct RI as (vm & -> & Nv & Mk & Pv).
+        rewrite Mk, Pv. destruct (is_nil v); [| inv HS; fin].
+        eapply progn_rel; eauto.
+      * destruct RI as (vm & -> & Nv). inv HS. eexists. split; [reflexivity|]. split; [reflexivity | exact EX].
+      * try subst r0. inv HS. fin.
+      * try subst r0. inv HS. fin.
+      * try subst r0. inv HS. fin.
+      * congruence.
+    + (* If *)
+      apply andb_true_iff in Gd. destruct Gd as [Gd G4]. apply andb_true_iff in Gd. destruct Gd as [G2 G3].
+      destruct (seval defs n bl tg f1 st) as [o1 st1] eqn:E.
+      assert (NO1 : o1 <> OOF) by (intro; subst; inv HS; congruence).
+      destruct (IHRG f1 G2 st o1 st1 E NO1) as (r0 & EM & RL & EX).
+      pose proof (rel_inv _ _ RL (CL _ _ _ _ _ _ E)) as RI.
+      rewrite EM. destruct o1.
+      * destruct RI as (vm & -> & Nv & Mk & Pv).
+        rewrite Mk, Pv. destruct (is_nil v); eapply IHRG; eauto.
+      * destruct RI as (vm & -> & Nv). inv HS. eexists. split; [reflexivity|]. split; [reflexivity | exact EX].
+      * try subst r0. inv HS. fin.
       * try subst r0. inv HS. fin.
       * try subst r0. inv HS. fin.
       * congruence.
@@ -929,8 +780,8 @@ Theorem impl_eq_ref : forall p fuel st o st',
 Proof.
   intros [defs main] fuel st o st' Gp HS NO. unfold guard in Gp. cbn [fst snd] in Gp.
   apply andb_true_iff in Gp. destruct Gp as [G1 G2].
-  assert (CX : ctx_ok false [] [] [] false [] []) by (repeat split; discriminate).
-  destruct (refine defs G2 fuel false [] [] [] false [] [] main G1 CX st o st' HS NO) as (r & EM & RL & EX).
+  assert (CX : ctx_ok [] [] [] false [] []) by (split; discriminate).
+  destruct (refine defs G2 fuel [] [] [] false [] [] main G1 CX st o st' HS NO) as (r & EM & RL & EX).
   exists r. split; [exact EM|]. split; [exact RL|].
   split; intros; intro; subst; cbn in EX; discriminate.
 Qed.
